@@ -68,6 +68,9 @@ ReadReturnsLogical ==
 \* a read fails exactly when it needs an altered page
 ReadFailsIffAltered ==
     IsRead => (IsErr(res') <=> (CurPage < NPages(img) /\ CurPage \in cpages))
+\* C17 at the page level: a read returns what a reader with an empty cache would return at that cursor
+ReadAsFresh == IsRead => res' = RRead(img, <<rs[1], -1, rs[3]>>, last'[Len(last')].n)[2]
+PropFresh   == [][ReadAsFresh]_<<pvars, last>>
 PropRead    == [][ReadReturnsLogical]_<<pvars, last>>
 PropVerdict == [][ReadFailsIffAltered]_<<pvars, last>>
 
